@@ -138,3 +138,31 @@ def spec_ebbi(red, swir, tir):
 def spec_normalize(val, min_val, max_val, pixel_max, c, th):
     norm = (val - min_val) / (max_val - min_val)
     return 1 / (1 + exp(c * (th - norm))) * pixel_max
+
+
+# ------------------------------------------------------------------ C12 classifiers
+def spec_binary(v, values, nv):
+    if any(values[k] == v for k in range(nv)):
+        return 1.0
+    if isfinite(v):
+        return 0.0
+    return nan
+
+
+def is_first_bin(bins, k, v):
+    # k is the first bin whose upper bound is >= v
+    return bins[k] >= v and all(bins[m] < v for m in range(0, k))
+
+
+def bin_cell_ok(o, v, bins, nbins, new_values):
+    if isfinite(v) and v <= bins[nbins - 1]:
+        return any(is_first_bin(bins, k, v) and same(o, new_values[k]) for k in range(0, nbins))
+    return isnan(o)
+
+
+def ascending(bins, n):
+    # non-strict; also excludes NaN (NaN <= NaN is false)
+    return all(bins[i] <= bins[j] for i in range(0, n) for j in range(i, n))
+
+
+OPAQUE |= {"bin_cell_ok"}
